@@ -3,7 +3,7 @@
 # (patch compiles, suite passes, demo fails with / passes without), then runs the
 # property's check (and optionally others) against it. Writes /verif/seeded/<id>/.
 set -u
-id="$1"; src="/tmp/seed/$id.out"; name="${2:-$id}"; prop="${id:0:3}"
+id="$1"; src="${SEEDDIR:-/tmp/seed}/$id.out"; name="${2:-$id}"; prop="${id:0:3}"
 export GOFLAGS=-mod=mod GOPROXY=off GOSUMDB=off GOTOOLCHAIN=local
 [ -f "$src/patch.diff" ] || { echo "no patch for $id"; exit 2; }
 wt=$(mktemp -d /tmp/evalseed-XXXXXX); rmdir "$wt"
@@ -38,9 +38,9 @@ for p in $prop $(python3 -c "import json;print(' '.join(c['property_id'] for c i
   [ "$p" = "$prop" ] && [ $rc -eq 1 ] && [ -z "${ALLPROPS:-}" ] && break
 done
 python3 - "$id" "$name" "$caught" "$detail" <<'PY'
-import json,sys
+import json,sys,os
 id,name,caught,detail=sys.argv[1:5]
-m=json.load(open('/tmp/seed/%s.out/meta.json'%id))
+m=json.load(open('%s/%s.out/meta.json'%(os.environ.get('SEEDDIR','/tmp/seed'),id)))
 m.update({"confirmed_by_me":{"patch_applies_and_builds":True,"suite_passes_with_patch":True,"demo_fails_with_patch":True,"demo_passes_without_patch":True,
  "commands":["git apply patch.diff; go build ./...; go test -vet=off -count=1 ./...","cp zz_seed_demo_test.go <package_dir>/; go test -vet=off -count=1 -run TestSeedDemo ./<package_dir>/  (fails)","git checkout -- .; go test -run TestSeedDemo ./<package_dir>/  (passes)","tools/mutcheck.sh patch.diff <property>"]},
  "checks_that_raise_violation":caught.split(),"violations":detail.strip()})
